@@ -19,7 +19,7 @@ class Creators:
       gfapy.error.FormatError : If the content of the line string is
         not valid
     """
-    if gfa_line is None:
+    if gfa_line is None or gfa_line == "":
       return
     if self._version == "gfa1":
       self.__add_line_GFA1(gfa_line)
@@ -74,9 +74,16 @@ class Creators:
         self._records[gfa_line.record_type] = {}
       self._records[gfa_line.record_type][id(gfa_line)] = gfa_line
 
+  @staticmethod
+  def __record_type_of_string(string):
+    if string[0] == "#":
+      return "#"
+    else:
+      return string.split(gfapy.Line.SEPARATOR)[0]
+
   def __add_line_unknown_version(self, gfa_line):
     if isinstance(gfa_line, str):
-      rt = gfa_line[0]
+      rt = self.__record_type_of_string(gfa_line)
     elif isinstance(gfa_line, gfapy.Line):
       rt = gfa_line.record_type
     else:
@@ -128,7 +135,7 @@ class Creators:
 
   def __add_line_GFA1(self, gfa_line):
     if isinstance(gfa_line, str):
-      if gfa_line[0] == "S":
+      if self.__record_type_of_string(gfa_line) == "S":
         gfa_line = gfapy.Line(gfa_line, vlevel=self._vlevel,
             dialect=self._dialect)
       else:
@@ -162,7 +169,7 @@ class Creators:
 
   def __add_line_GFA2(self, gfa_line):
     if isinstance(gfa_line, str):
-      if gfa_line[0] == "S":
+      if self.__record_type_of_string(gfa_line) == "S":
         gfa_line = gfapy.Line(gfa_line, vlevel=self._vlevel,
             dialect=self._dialect)
       else:
